@@ -789,6 +789,15 @@ impl<'a> RefWriter<'a> {
                                 bodies.insert(at, format!("(ghost copy {} in container {})", c, sid).into_bytes());
                             }
                         }
+                        // (C08 only) an entry whose number lies far beyond Size and that no cross-reference row names,
+                        // a different one in each container, at the end of the index
+                        let mut beyond: Option<u32> = None;
+                        if self.ghost_objects && self.ch.rng.bool() {
+                            let b = 100_000 + sid * 16 + self.ch.rng.below(16) as u32;
+                            beyond = Some(b);
+                            nums.push(b);
+                            bodies.push(format!("(number {} beyond Size, container {})", b, sid).into_bytes());
+                        }
                         let mut data_part: Vec<u8> = vec![];
                         let mut offs: Vec<usize> = vec![];
                         for b in &bodies {
@@ -860,7 +869,7 @@ impl<'a> RefWriter<'a> {
                             ents.insert(row, Ent::InUse(off2, 0));
                         }
                         for (k, n) in nums.iter().enumerate() {
-                            if Some(*n) != ghost {
+                            if Some(*n) != ghost && Some(*n) != beyond {
                                 ents.insert(*n, Ent::Compressed(sid, k));
                             }
                         }
